@@ -1,13 +1,15 @@
 (* C16 — property theorems only (each closed by `exact <lemma>`, followed by Print Assumptions). *)
 From Coq Require Import List NArith Bool.
-From MW Require Import C16.Model C16.Proofs.
+From MW Require Import C16.Model C16.Proofs C16.ProofsHandout.
 Import ListNotations.
 Open Scope N_scope.
 
-(* `nodrop h`: h contains no Drop op (rpc_qdrop is outside the alphabet of C16/C17/C18; Advance and
-   Watchdog are allowed).  With Drop the "registered under its id" conjunct is FALSE for the real code and the
-   model alike: waitjobs deletes id2job[j.jobid] of a dropped job by id, which after kill + re-add under the
-   same id is the NEW job (history: A 0 0 0 -; W 1 n0; Drop n0; K 3 n0; A 0 0 0 -; L). *)
+(* All theorems quantify over EVERY history of the model's full alphabet: Drop (rpc_qdrop), Watchdog (dropdead) and
+   Advance included.  Since b6f8314 waitjobs forgets the id of a dropped job only while id2job[jobid] still IS the
+   waited-for (finished) object, so no op forgets the id of an unfinished job: the former `nodrop h` premise is gone.
+   (Before the fix the id clause was false with Drop: A 0 0 0 -; W 1 n0; Y n0; K 3 n0; A 0 0 0 -; L.)
+   What Drop + wait still does: it removes FINISHED jobs from id2job (that is its purpose); theorems that speak about
+   a job "registered under id i" (C17_wait_*, C18_restart_preserves) keep the lookup as a hypothesis. *)
 
 (* For EVERY history h (any length, any number of jobs / connections / channels, any resolution of
    random.choice, any placement of RunLoop = any interleaving of atomic stretches) and every job
@@ -17,7 +19,7 @@ Open Scope N_scope.
    never none; it is the job registered under its id in id2job; if queued, it is queued in its own
    channel with its own priority.  (A job held by a worker is therefore in no queue and with no other
    worker; it returns to a queue only through the shutdown() of that worker's connection.) *)
-Theorem C16_conservation : forall h x j, nodrop h = true ->
+Theorem C16_conservation : forall h x j,
   let s := run h init in
   getjob (s_jobs s) x = Some j -> j_done j = false ->
   (in_queues s x + with_workers s x = 1)%nat /\
@@ -27,7 +29,7 @@ Proof. exact conservation. Qed.
 Print Assumptions C16_conservation.
 
 (* Nothing that was not accepted is ever queued or handed out. *)
-Theorem C16_no_phantoms : forall h x, nodrop h = true ->
+Theorem C16_no_phantoms : forall h x,
   let s := run h init in
   getjob (s_jobs s) x = None -> (in_queues s x + with_workers s x = 0)%nat.
 Proof. exact no_phantoms. Qed.
@@ -35,20 +37,59 @@ Print Assumptions C16_no_phantoms.
 
 (* The defect of the original code, excluded: a puller that is still registered as waiter has an
    empty mailbox, so a hand-off (AsyncResult.set) never overwrites a job handed over before. *)
-Theorem C16_registered_waiter_has_empty_mailbox : forall h c chs, nodrop h = true ->
+Theorem C16_registered_waiter_has_empty_mailbox : forall h c chs,
   let s := run h init in
   In (c, chs) (s_waiters s) -> c_st (get_conn (s_conns s) c) = BPull chs None.
 Proof. exact waiters_empty_mailbox. Qed.
 Print Assumptions C16_registered_waiter_has_empty_mailbox.
 
-(* The invariant is inductive: it holds initially and every single op other than Drop preserves it (this
-   is what lifts to all histories by fold_left).  Aux = no job carries the drop flag, and only finished
-   jobs carry a dropdead deadline. *)
-Theorem C16_invariant_inductive :
-  (Aux init /\ Inv init [] []) /\
-  forall s o, nodrop_op o = true -> Aux s /\ Inv s [] [] -> Aux (fst (step s o)) /\ Inv (fst (step s o)) [] [].
-Proof. exact (conj (conj aux_init inv_init) step_good). Qed.
+(* The invariant is inductive: it holds initially and EVERY single op preserves it (this is what lifts to all
+   histories by fold_left).  Good = Aux (only finished jobs carry a dropdead deadline) + HubOK (every finish
+   notification queued in the hub belongs to a finished job) + Inv. *)
+Theorem C16_invariant_inductive : Good init /\ forall s o, Good s -> Good (fst (step s o)).
+Proof. exact (conj good_init step_good). Qed.
 Print Assumptions C16_invariant_inductive.
+
+(* "It is handed out once per enqueueing (again only if its worker's connection drops before finishing it)".
+   Ghost counters of the model: s_handed gets the serial at every hand-out (deliver = rpc_qpull returns the job to a
+   worker, whether straight from a queue, through a hand-off mailbox or after pop's retry), s_requeued gets it when
+   QPlugin.shutdown of a dying connection re-queues a job that connection held unfinished in its running_jobs (and
+   nowhere else).  For EVERY history and every job object x:
+     re-queues <= hand-outs <= re-queues + 1;
+     while x is unfinished, hand-outs = re-queues + (number of running_jobs entries holding x), and that number is
+     0 (x queued or in a hand-off mailbox) or 1 (C16_conservation): x has been handed out exactly once more than it
+     was given back by a dropped connection iff a worker holds it now. *)
+Theorem C16_handout_count : forall h x j,
+  let s := run h init in
+  getjob (s_jobs s) x = Some j ->
+  (occ x (s_requeued s) <= occ x (s_handed s) <= occ x (s_requeued s) + 1)%nat /\
+  (j_done j = false -> occ x (s_handed s) = (occ x (s_requeued s) + run_occ x (s_conns s))%nat).
+Proof. exact handout_count. Qed.
+Print Assumptions C16_handout_count.
+
+Theorem C16_held_by_at_most_one : forall h x j,
+  let s := run h init in
+  getjob (s_jobs s) x = Some j -> j_done j = false -> (held s x <= 1)%nat.
+Proof. exact handout_held_le_1. Qed.
+Print Assumptions C16_held_by_at_most_one.
+
+(* what was never accepted is never handed out or re-queued *)
+Theorem C16_handout_none : forall h x,
+  let s := run h init in
+  getjob (s_jobs s) x = None -> occ x (s_handed s) = 0%nat /\ occ x (s_requeued s) = 0%nat.
+Proof. exact handout_none. Qed.
+Print Assumptions C16_handout_none.
+
+(* Non-vacuity: job 1 is pulled by worker 1, whose connection drops; shutdown re-queues it; worker 2 pulls it:
+   two hand-outs, one re-queue, held by one worker. *)
+Example C16_handout_example :
+  let s := run handout_history init in
+  s_handed s = [1; 1] /\ s_requeued s = [1] /\
+  map (fun j => (j_serial j, j_done j)) (s_jobs s) = [(1, false)] /\
+  run_occ 1 (s_conns s) = 1%nat /\
+  (occ 1 (s_handed s) = occ 1 (s_requeued s) + run_occ 1 (s_conns s))%nat.
+Proof. exact handout_example. Qed.
+Print Assumptions C16_handout_example.
 
 (* Non-vacuity: a 10-op history with 2 channels, 3 workers, a hand-off to a blocked puller chosen by
    Choice, a disconnect that re-queues job 1, and a pull that prefers priority 0 of channel 1. *)
